@@ -27,7 +27,10 @@ R2  empty-collection unpack (T-GUARD), conditional: IF a collection is unpacked 
     emptied since), the site is evaluated under a guard that implies it, or on every CFG path to it a test sends
     the empty case elsewhere and xs is not re-bound after that test.  Positive control on embedded examples.
 R3  placeholders = parameters.  Symbolic count on the expanded view (see above) for every pair entering the list
-    the WHERE text is joined from, and the flatten step by abstract evaluation.  By evaluation: Filter.to_sql is run
+    the WHERE text is joined from, and the flatten step by abstract evaluation.  Parameters handed out by a helper,
+    method or property of the repository are counted in its return(s) (all agreeing; a list grown by unconditional
+    append / extend counts its pieces; a comprehension counts the collection it iterates; astuple(x) the fields of
+    x's class; a module-level table its rows).  By evaluation: Filter.to_sql is run
     by the checker's interpreter on a table of filters (every attribute alone with ordinary and zero values, single
     strings and lists, every region type in every position, legal mixes) and must return exactly the documented
     conditions, each with its own parameters in placeholder order (conjuncts compared as a multiset: AND commutes),
@@ -49,7 +52,14 @@ R6  by the same evaluation: one WHERE conjunct per condition with its own parame
     order; legal boundary settings accepted, the documented illegal ones refused.
 R7  is-set tests of optional numerics (`int | None`, `float | None` fields of Filter and the query classes) are
     made against None itself, never by truthiness (expanded view; through locals and helper parameters).
-    Bounding-box bounds reach the SQL parameters exactly as given (BoundingBox is a plain value).
+    Bounding-box bounds reach the SQL parameters exactly as given, by evaluation: for each probe box (legal boxes:
+    every edge of -90..90 / -180..180 in every position, 0 as lower and as upper bound, many digits, integers) a
+    BoundingBox is constructed (its __post_init__ runs), placed in each box attribute of Filter, and Filter.to_sql
+    is run by the checker's interpreter.  The constructed box holds the four numbers given; the parameter bound to
+    `<column> >= ?` / `<column> <= ?` of the location sub-select is the box attribute of the column's name,
+    unchanged in value (whatever helper, method, property, astuple() or loop carries it there); no legal box is
+    refused.  The four numbers are traced values: when a parameter differs, the expression that computed something
+    from the bound (arithmetic, comparison, truth test, rounding, min/max, math.*) is named with its function.
 R8  each query iterates a cursor created in the call that runs it; SQL and parameters come from one to_sql() call;
     what _yield_results yields is <result type>.from_row(row) for every row of <cursor>.execute(<sql>, <params>)
     (for loop with or without locals, `yield from` / returned generator or list comprehension).
@@ -67,7 +77,7 @@ from ..astutil import (MUTATING_METHODS, ancestors, assigned_names, call_name, c
                        tuple_def_component, walk_no_nested)
 from ..cfg import CFG
 from ..loader import dotted_name
-from ..resolve import closure, resolve_call
+from ..resolve import closure, expr_class, resolve_call
 
 Q = 'missions/query.py'
 F = 'missions/filter.py'
@@ -1090,11 +1100,49 @@ class _Count:
         return None
 
     # -- parameters pushed with it
+    def _grown(self, fi, name, env, depth):
+        """a local list that is changed in place after it is bound: (is it?, its length when every change is an
+        unconditional append / extend / += in the function's own statement list, else None)"""
+        pushes = []
+        for x in walk_no_nested(fi.node):
+            if isinstance(x, ast.Call) and isinstance(x.func, ast.Attribute) and x.func.attr in MUTATING_METHODS \
+                    and isinstance(x.func.value, ast.Name) and x.func.value.id == name:
+                pushes.append(stmt_of(x))
+            elif isinstance(x, ast.AugAssign) and isinstance(x.target, ast.Name) and x.target.id == name:
+                pushes.append(x)
+            elif isinstance(x, ast.Subscript) and isinstance(x.ctx, (ast.Store, ast.Del)) and isinstance(x.value, ast.Name) \
+                    and x.value.id == name:
+                pushes.append(None)
+        if not pushes:
+            return False, None
+        init = single_def_value(fi.node, name)
+        tot = self.p(fi, init, env, depth + 1) if isinstance(init, (ast.List, ast.Tuple, ast.Call)) else None
+        if tot is None:
+            return True, None
+        for st in pushes:
+            if st is None or not any(st is b for b in fi.node.body):
+                return True, None
+            if isinstance(st, ast.AugAssign) and isinstance(st.op, ast.Add):
+                c = self.p(fi, st.value, env, depth + 1)
+            elif isinstance(st, ast.Expr) and isinstance(st.value, ast.Call) and len(st.value.args) == 1 and not st.value.keywords \
+                    and st.value.func.attr in ('append', 'extend'):
+                c = Counter({'1': 1}) if st.value.func.attr == 'append' else self.p(fi, st.value.args[0], env, depth + 1)
+            else:
+                c = None
+            if c is None:
+                return True, None
+            tot = tot + c
+        return True, tot
+
     def p(self, fi, e, env=None, depth=0) -> Counter | None:
         env = env or {}
-        e = _resolve(fi, e)
         if depth > 6:
             return None
+        if isinstance(e, ast.Name) and local_defs(fi.node, e.id):
+            grown, tot = self._grown(fi, e.id, env, depth)
+            if grown:
+                return tot
+        e = _resolve(fi, e)
         if isinstance(e, (ast.List, ast.Tuple)):
             tot = Counter()
             for x in e.elts:
@@ -1118,6 +1166,8 @@ class _Count:
             return a if a is not None and b is not None and +a == +b else None
         if isinstance(e, ast.Call) and call_name(e) in ('list', 'tuple', 'sorted') and len(e.args) == 1:
             return self.p(fi, e.args[0], env, depth + 1)
+        if isinstance(e, ast.Call) and call_name(e) in ('list', 'tuple') and not e.args and not e.keywords:
+            return Counter()
         if isinstance(e, ast.Call) and isinstance(e.func, ast.Attribute) and e.func.attr == 'copy' and not e.args:
             return self.p(fi, e.func.value, env, depth + 1)
         if isinstance(e, ast.Subscript) and isinstance(e.slice, ast.Slice) and e.slice.lower is None \
@@ -1127,6 +1177,49 @@ class _Count:
             return Counter({'1': 1})
         if isinstance(e, ast.Attribute) and norm(e.value) == 'self' and e.attr in self.scalars:
             return Counter({'1': 1})
+        if isinstance(e, (ast.ListComp, ast.GeneratorExp)) and len(e.generators) == 1 and not e.generators[0].ifs \
+                and not e.generators[0].is_async and not isinstance(e.elt, ast.Starred):
+            # one parameter per item of the collection iterated
+            return self.p(fi, e.generators[0].iter, env, depth + 1)
+        # a helper / method / property of the repository that returns the parameters: what every one of its returns
+        # hands out, with the lengths expressed in the caller's collections
+        callee, bound = None, {}
+        if isinstance(e, ast.Call) and not any(isinstance(a, ast.Starred) for a in e.args) and all(k.arg for k in e.keywords):
+            if call_name(e).split('.')[-1] == 'astuple' and len(e.args) == 1 and not e.keywords and \
+                    fi.module.imports.get(call_name(e).split('.')[0]) in ('dataclasses', 'dataclasses.astuple'):
+                ci = expr_class(self.prog, fi, e.args[0])
+                return Counter({'1': len(ci.all_fields())}) if ci is not None and ci.all_fields() else None
+            callee = resolve_call(self.prog, fi, e)
+            if callee is not None:
+                ps = list(callee.params)
+                if callee.cls is not None and ps[:1] in (['self'], ['cls']) and isinstance(e.func, ast.Attribute):
+                    bound['@' + ps[0]] = self.sym(fi, e.func.value, env)
+                    ps = ps[1:]
+                if len(e.args) > len(ps) or any(k.arg not in ps[len(e.args):] for k in e.keywords):
+                    return None
+                bound.update({'@' + q: self.sym(fi, a, env) for q, a in zip(ps, e.args)})
+                bound.update({'@' + k.arg: self.sym(fi, k.value, env) for k in e.keywords})
+        elif isinstance(e, ast.Attribute):
+            owner = expr_class(self.prog, fi, e.value)
+            meth = owner.find_method(e.attr) if owner is not None and e.attr not in owner.all_fields() else None
+            if meth is not None and any('property' in d for d in meth.decorators()) and meth.params[:1] == ['self']:
+                callee, bound = meth, {'@self': self.sym(fi, e.value, env)}
+        if callee is not None:
+            if isinstance(callee.node, ast.AsyncFunctionDef) or \
+                    any(isinstance(n, (ast.Yield, ast.YieldFrom)) for n in walk_no_nested(callee.node)):
+                return None
+            rets = [n for n in walk_no_nested(callee.node) if isinstance(n, ast.Return)]
+            got = [self.p(callee, r.value, bound, depth + 1) if r.value is not None else None for r in rets]
+            if not got or any(g is None for g in got) or any(+g != +got[0] for g in got):
+                return None
+            return got[0]
+        if isinstance(e, ast.Call):
+            return None
+        if isinstance(e, ast.Name) and '@' + e.id not in env and e.id not in fi.params and not local_defs(fi.node, e.id):
+            # a module-level table (bound once to a display): as many parameters as it has rows
+            v = _module_values(fi).get(e.id)
+            if isinstance(v, (ast.List, ast.Tuple)) and not any(isinstance(x, ast.Starred) for x in v.elts):
+                return Counter({'1': len(v.elts)}) if v.elts else Counter()
         if isinstance(e, (ast.Attribute, ast.Name)):
             return Counter({f'len({self.sym(fi, e, env)})': 1})
         return None
@@ -1671,11 +1764,44 @@ def _c14_interp(prog):
     astimezone().  A naive datetime has no zone of its own: where the library would read the *process's* local zone the
     model uses UTC+05:45, so anything that depends on it shows up as a wrong instant instead of passing by accident."""
     import datetime as _dt
-    from .c13 import _Interp, _Rec, _Fn, _ClassRef, _Undecidable, _Raised, _BINOPS
+    from .c13 import _Interp, _Rec, _Fn, _ClassRef, _Undecidable, _Raised, _BINOPS, _Ctx, _raw_index, _is_enum
 
+    import math as _math
     LOCAL = _dt.timezone(_dt.timedelta(hours=5, minutes=45))
+    MATH_FUNCS = {'floor', 'ceil', 'trunc', 'fabs', 'fmod', 'remainder', 'copysign', 'isclose', 'isfinite', 'isnan', 'isinf',
+                  'radians', 'degrees', 'sqrt', 'modf', 'sin', 'cos', 'tan', 'asin', 'acos', 'atan', 'atan2', 'hypot', 'pow'}
+    MATH_CONSTS = {'pi', 'tau', 'inf', 'nan', 'e'}
+    OPNODES = (ast.BinOp, ast.Compare, ast.UnaryOp, ast.BoolOp, ast.IfExp, ast.Call, ast.JoinedStr)
 
     class QueryInterp(_Interp):
+        def __init__(self, prog):
+            super().__init__(prog)
+            # (module, node) of the operations / statements being evaluated, innermost last: what a traced value
+            # (rule R7) reads to say *where* something was computed from it
+            self.nodes = []
+
+        def _method_node(self, ci, name):
+            for c in ci.mro():
+                node = _raw_index(c.module)['functions'].get(f'{c.name}.{name}')
+                if node is None and name in c.methods:
+                    node = c.methods[name].node
+                if node is not None:
+                    return c, node
+            return None, None
+
+        def construct(self, ci, args, kwargs):
+            """a dataclass instance is what its generated __init__ leaves behind: the fields in declaration order,
+            then __post_init__"""
+            rec = super().construct(ci, args, kwargs)
+            c, node = self._method_node(ci, '__post_init__')
+            if node is not None and not _is_enum(ci):
+                order = [k for k in ci.all_fields() if k in rec.fields]
+                rec.fields = {**{k: rec.fields[k] for k in order}, **{k: v for k, v in rec.fields.items() if k not in order}}
+                if node.decorator_list:
+                    raise _Undecidable(f'decorated {ci.name}.__post_init__')
+                self.call_fn(_Fn(_Ctx(c.module), node, []), [rec], {})
+            return rec
+
         def lookup(self, name, fi, scopes):
             for s_ in reversed(scopes):
                 if name in s_:
@@ -1685,14 +1811,41 @@ def _c14_interp(prog):
                 return _dt.timezone.utc
             if tgt == 'datetime.timezone':
                 return _dt.timezone
+            if tgt == 'math':
+                return _math
+            if tgt and tgt.startswith('math.') and tgt[5:] in MATH_FUNCS | MATH_CONSTS:
+                return getattr(_math, tgt[5:])
             return super().lookup(name, fi, scopes)
 
         def eval(self, e, fi, sc):
+            if isinstance(e, OPNODES):
+                self.nodes.append((fi.module, e))
+                try:
+                    return super().eval(e, fi, sc)
+                finally:
+                    self.nodes.pop()
             if isinstance(e, ast.Attribute):
+                if isinstance(e.value, ast.Name) and e.attr in MATH_CONSTS and not any(e.value.id in s_ for s_ in sc) \
+                        and fi.module.imports.get(e.value.id) == 'math':
+                    return getattr(_math, e.attr)
                 if isinstance(e.value, ast.Name) and e.value.id in ('time', 'timezone', 'datetime', 'date') and e.attr in ('min', 'max', 'utc'):
                     v = self.eval(e.value, fi, sc)
                     if isinstance(v, type) and hasattr(v, e.attr):
                         return getattr(v, e.attr)
+                # <record>.<property>: the value its getter returns
+                v = self.eval(e.value, fi, sc)
+                if isinstance(v, _Rec) and e.attr not in v.fields:
+                    c, node = self._method_node(v.ci, e.attr)
+                    if node is not None and [ast.unparse(d) for d in node.decorator_list] in \
+                            (['property'], ['cached_property'], ['functools.cached_property']):
+                        self.nodes.append((fi.module, e))
+                        try:
+                            return self.call_fn(_Fn(_Ctx(c.module), node, []), [v], {})
+                        finally:
+                            self.nodes.pop()
+                held = ast.copy_location(ast.Name(id='\x00recv', ctx=ast.Load()), e)
+                return super().eval(ast.copy_location(ast.Attribute(value=held, attr=e.attr, ctx=ast.Load()), e), fi,
+                                    sc + [{'\x00recv': v}])
             return super().eval(e, fi, sc)
 
         def call_fn(self, fn, args, kwargs):
@@ -1766,6 +1919,19 @@ def _c14_interp(prog):
             if isinstance(e.func, ast.Name) and e.func.id == 'cast' and len(e.args) == 2 and plain \
                     and fi.module.imports.get('cast') == 'typing.cast':
                 return self.eval(e.args[1], fi, sc)
+            if nm.split('.')[-1] in MATH_FUNCS and plain and not any(nm.split('.')[0] in s_ for s_ in sc) and \
+                    fi.module.imports.get(nm.split('.')[0]) in ('math', 'math.' + nm):
+                args = [self.eval(a, fi, sc) for a in e.args]
+                if all(isinstance(a, (int, float)) for a in args):
+                    return self.guard(getattr(_math, nm.split('.')[-1]), args)
+                raise _Undecidable(f'{nm} of these values')
+            if nm.split('.')[-1] in ('astuple', 'asdict') and len(e.args) == 1 and plain and \
+                    fi.module.imports.get(nm.split('.')[0]) in ('dataclasses', 'dataclasses.' + nm):
+                v = self.eval(e.args[0], fi, sc)
+                if isinstance(v, _Rec) and not any(isinstance(x, (_Rec, list, dict, tuple, set)) for x in v.fields.values()):
+                    order = [k for k in v.ci.all_fields() if k in v.fields]
+                    return tuple(v.fields[k] for k in order) if nm.endswith('astuple') else {k: v.fields[k] for k in order}
+                raise _Undecidable(f'{nm} of this value')
             if nm.split('.')[-1] == 'utcfromtimestamp' and len(e.args) == 1 and plain:
                 v = self.eval(e.args[0], fi, sc)
                 if isinstance(v, str):
@@ -1830,6 +1996,13 @@ def _c14_interp(prog):
             return super().assign(t, v, fi, sc)
 
         def exec(self, st, fi, sc):
+            self.nodes.append((fi.module, st))
+            try:
+                return self._exec(st, fi, sc)
+            finally:
+                self.nodes.pop()
+
+        def _exec(self, st, fi, sc):
             if isinstance(st, ast.AugAssign) and isinstance(st.target, (ast.Name, ast.Attribute)):
                 load = _clone(st.target)
                 load.ctx = ast.Load()
@@ -2583,33 +2756,202 @@ def _yields_converted_rows(prog, caller, yf) -> bool:
     return is_exec(loops[0].iter) and is_conv(o.value, loops[0].target.id)
 
 
+# ---------------------------------------------------------------- R7 (bounds) -----
+_BOX_FIELDS = ('min_latitude', 'max_latitude', 'min_longitude', 'max_longitude')
+# legal boxes (-90 <= south <= north <= 90, -180 <= west <= east <= 180): every edge of the legal range in every
+# position, zero as a lower and as an upper bound, values with many digits, integers
+_BOX_PROBES = (
+    (-90.0, 90.0, -180.0, 180.0),
+    (-90.0, 0.0, -180.0, 0.0),
+    (0.0, 90.0, 0.0, 180.0),
+    (10.0, 20.5, -30.0, 40.25),
+    (-45.125, -12.345678912345, 120.000001, 179.999999),
+    (46.372276, 49.020530, -180.0, -179.5),
+    (-90, -89, 179, 180),
+    (89.5, 90.0, 179.5, 180.0),
+    (-0.5, 0.5, -0.25, 0.75),
+)
+
+
+def _traced_number(base, log, nodes):
+    """a subclass of float / int whose instances behave as the number they are and note, in `log`, every operation
+    that computes something *from* them (arithmetic, comparison, truth test, rounding, conversion, formatting) together
+    with the expression the interpreter is evaluating at that moment (top of `nodes`).  Handing a value on - binding
+    it, passing it, returning it, putting it into a list - is not an operation and leaves no note."""
+    def note(self, op):
+        if nodes:
+            log.append((self.tag, op, nodes[-1]))
+
+    def wrap(name):
+        f = getattr(base, name)
+
+        def m(self, *a):
+            note(self, name.strip('_'))
+            return f(self, *a)
+        m.__name__ = name
+        return m
+    names = ['__add__', '__sub__', '__mul__', '__truediv__', '__floordiv__', '__mod__', '__pow__', '__divmod__',
+             '__radd__', '__rsub__', '__rmul__', '__rtruediv__', '__rfloordiv__', '__rmod__', '__rpow__', '__rdivmod__',
+             '__neg__', '__pos__', '__abs__', '__round__', '__trunc__', '__floor__', '__ceil__', '__int__', '__float__',
+             '__bool__', '__lt__', '__le__', '__gt__', '__ge__', '__eq__', '__ne__', '__str__', '__format__']
+    ns = {n: wrap(n) for n in names if hasattr(base, n)}
+    ns['__hash__'] = base.__hash__
+    ns['__repr__'] = base.__repr__
+    ns['tag'] = None
+    return type('_Bound' + base.__name__.capitalize(), (base,), ns)
+
+
+def _function_at(module, line):
+    """qualified name of the innermost function of the module's source that contains the line"""
+    from .c13 import _raw_index
+    best = None
+    for q, n in _raw_index(module)['functions'].items():
+        if n.lineno <= line <= (getattr(n, 'end_lineno', None) or n.lineno) and (best is None or n.lineno >= best[1].lineno):
+            best = (q, n)
+    return best[0] if best else '<module>'
+
+
+def _plain(v):
+    """a traced or ordinary number as an ordinary one (None for anything else)"""
+    if isinstance(v, bool) or not isinstance(v, (int, float)):
+        return None
+    return int.__int__(v) if isinstance(v, int) else float.__float__(v)
+
+
 def rule_criteria_values(ctx):
-    """R7: the numbers a caller puts into a bounding box are the numbers compared in SQL: BoundingBox is a plain
-    value (no method rewrites its fields) and _bounding_box_condition passes the four bounds as they are."""
-    fm = ctx.prog.module(F)
-    bb = fm.cls('BoundingBox')
-    fields = set(bb.annotated_fields())
+    """R7: the numbers a caller puts into a bounding box are the numbers compared in SQL.  By evaluation: a BoundingBox
+    is constructed (its __post_init__ runs) from each probe box, placed in each of the filter's box attributes, and
+    Filter.to_sql is run by the checker's interpreter.  The constructed box must hold the four numbers given, and the
+    parameter bound to every `<column> >= ?` / `<column> <= ?` of the location sub-select must be the box attribute
+    of the column's name, unchanged in value.  The four numbers are traced: when a parameter differs, the expression
+    that computed it from the bound is named."""
+    prog = ctx.prog
+    fm = prog.module(F)
+    bb, fcls = fm.cls('BoundingBox'), fm.cls('Filter')
+    ts = fm.func('Filter.to_sql')
+    fields = [f for f in bb.all_fields() if f in _BOX_FIELDS]
     ctx.floor('C14-R7', len(fields), 4, 'BoundingBox fields')
+    from ..resolve import _ann_class
+    attrs = [a for a, ann in fcls.all_fields().items() if _ann_class(prog, fm, ann) is bb]
+    ctx.floor('C14-R7/boxes', len(attrs), 3, 'box attributes of Filter')
+    interp, _Rec, _Undecidable, _Raised = _c14_interp(prog)
+    log = []
+    traced = {float: _traced_number(float, log, interp.nodes), int: _traced_number(int, log, interp.nodes)}
+
+    def where_of(ev):
+        module, node = ev[2]
+        line = getattr(node, 'lineno', 0)
+        txt = ast.unparse(node.test if isinstance(node, (ast.If, ast.While, ast.Assert)) else node)
+        return module, line, _function_at(module, line), ' '.join(txt.split())[:70]
+
+    def computed_from(tag):
+        """(where, text): the expression(s) that computed something from this bound during the evaluation just made"""
+        evs = [ev for ev in log if ev[0] == tag]
+        if not evs:
+            return None, ''
+        tests = ('lt', 'le', 'gt', 'ge', 'eq', 'ne', 'bool')
+        arith = [ev for ev in evs if ev[1] not in tests]
+        main = where_of((arith or evs)[-1])
+        others = []
+        for ev in evs:
+            w = where_of(ev)
+            if w[3] != main[3] and w[3] not in others and w[3] not in main[3]:
+                others.append(w[3])
+        txt = f'`{main[3]}` in {main[2]} computes a new value from it'
+        if others:
+            txt += f' (after `{others[0]}`)'
+        return main, txt
+
+    seen = set()
+    failed = set()
+    held = {}
     n = 0
-    for meth in bb.methods.values():
-        for t, st, how in stores_to(meth.node):
-            if isinstance(t, ast.Attribute) and norm(t.value) == 'self' and t.attr in fields:
+
+    def fail(attr, fld, main, construct, why):
+        """one report per (place, bound): the same expression serves every box attribute and every probe"""
+        failed.add((attr, fld))
+        key = (main[2], fld) if main else ('', fld or why.split(':')[0])
+        if key in seen or (main is None and fld and any(k[1] == fld for k in seen)):
+            return
+        seen.add(key)
+        if main is not None:
+            ctx.ob('C14-R7', (main[0].relpath, main[2]), construct, False, why, line=main[1])
+        else:
+            ctx.ob('C14-R7', ts, construct, False, why)
+
+    try:
+        for probe in _BOX_PROBES:
+            given = dict(zip(_BOX_FIELDS, probe))
+            for attr in attrs:
+                del log[:]
+                vals = {}
+                for fld in fields:
+                    v = traced[type(given[fld])](given[fld])
+                    v.tag = fld
+                    vals[fld] = v
+                shown = f'{attr}=BoundingBox({", ".join(f"{k}={given[k]!r}" for k in fields)})'
+                try:
+                    interp.steps = 0
+                    box = interp.construct(bb, [], dict(vals))
+                    rec = _Rec(fcls.name, {**{k: None for k in fcls.all_fields()}, attr: box}, fcls)
+                    stored = {fld: box.fields.get(fld) for fld in fields}
+                    first = interp.call_method(fcls, 'to_sql', rec, [], {})
+                except _Raised as ex:
+                    n += 1
+                    if isinstance(ex.exc, (ValueError, AssertionError)):
+                        fail(attr, '', None, f'Filter({shown})', f'this legal box is refused: {type(ex.exc).__name__}({str(ex.exc)[:80]})')
+                    elif isinstance(ex.exc, (AttributeError, TypeError)) and 'NoneType' in str(ex.exc):
+                        fail(attr, '', None, f'Filter({shown}).to_sql()',
+                             f'building the condition of this filter fails: {type(ex.exc).__name__}({str(ex.exc)[:80]}) - an attribute '
+                             f'that is not set is read where {attr} is meant')
+                    else:
+                        raise
+                    continue
                 n += 1
-                ctx.ob('C14-R7', meth, f'{norm(st)[:60]}', False,
-                       (f'BoundingBox.{t.attr} is rewritten after construction: the box that is compared in SQL is not the box '
-                        'the caller asked for (wrapping an eastern edge of 180° to −180° makes `longitude <= ?` match nothing)'),
-                       line=st.lineno)
-    ctx.ob('C14-R7', (fm.relpath, 'BoundingBox'), f'{n} method(s) rewrite the bounds', n == 0,
-           'the bounds are stored as given' if n == 0 else 'see above', nontrivial=False)
-    bc = fm.func('Filter._bounding_box_condition')
-    uses = [x for x in ast.walk(bc.node) if isinstance(x, ast.Attribute) and x.attr in fields]
-    ctx.floor('C14-R7/uses', len(uses), 4, 'bounds used by _bounding_box_condition')
-    for u in uses:
-        p = getattr(u, '_parent', None)
-        ok = isinstance(p, (ast.List, ast.Tuple))
-        ctx.ob('C14-R7', bc, f'bound {norm(u)} passed as a parameter unchanged', ok,
-               'element of the parameter list' if ok else f'the bound enters an expression (`{norm(p)[:50]}`) before being compared',
-               line=u.lineno, nontrivial=False)
+                if not (isinstance(first, tuple) and len(first) == 2 and isinstance(first[0], str) and isinstance(first[1], list)):
+                    raise _Undecidable(f'to_sql returned {first!r}')
+                for fld in fields:
+                    if _plain(stored[fld]) is None or _plain(stored[fld]) != given[fld]:
+                        main, how = computed_from(fld)
+                        fail(attr, fld, main, f'BoundingBox.{fld} = {given[fld]!r}',
+                             f'a box constructed with {fld}={given[fld]!r} holds {_plain(stored[fld])!r}: the box that is compared in SQL '
+                             f'is not the box the caller asked for' + (f'; {how}' if how else ''))
+                text, params = _norm_sql(first[0]), first[1]
+                cols = re.findall(r'(\w+) (?:>=|<=|<|>|=) \?', text)
+                if len(cols) != len(params) or not cols or any(c not in fields for c in cols):
+                    cols = list(_BOX_FIELDS) * (len(params) // 4) if params and len(params) % 4 == 0 else None
+                if cols is None:
+                    fail(attr, '', None, f'Filter({shown}).to_sql()',
+                         f'{len(params)} parameter(s) for the box condition `{first[0][:60]}`: the four bounds do not reach the '
+                         'location sub-select')
+                    continue
+                for i, (col, got) in enumerate(zip(cols, params)):
+                    if _plain(got) is not None and _plain(got) == given[col] and _plain(stored[col]) == given[col]:
+                        held.setdefault((attr, col), set()).add(probe)
+                        continue
+                    if _plain(stored[col]) != given[col]:
+                        continue   # reported above, at the construction
+                    main, how = computed_from(col)
+                    src = [f for f in fields if f != col and _plain(got) is not None and _plain(got) == given[f]]
+                    if not how and src and len(set(probe)) == 4:
+                        how = f'it receives {attr}.{src[0]}'
+                    fail(attr, col, main, f'{attr}.{col} = {given[col]!r}',
+                         f'with {shown} the parameter compared with column {col} is {_plain(got) if _plain(got) is not None else got!r}, '
+                         f'not the bound {given[col]!r}: the query selects the instances of a different box'
+                         + (' (an eastern edge of 180 turned into -180 makes `max_longitude <= ?` match nothing)'
+                            if col == 'max_longitude' and given[col] == 180 and _plain(got) == -180 else '')
+                         + (f'; {how}' if how else ''))
+    except (_Undecidable, _Raised) as ex:
+        ctx.undecided('C14-R7', ts, 'Filter.to_sql on the probe boxes', f'cannot run it: {ex}')
+    ctx.floor('C14-R7/uses', n, len(_BOX_PROBES) * 3, 'box conditions evaluated')
+    for attr in attrs:
+        for fld in fields:
+            if (attr, fld) not in failed and (attr, '') not in failed:
+                got = held.get((attr, fld), ())
+                ctx.ob('C14-R7', ts, f'{attr}.{fld} is the parameter compared with column {fld}',
+                       len(got) == len(_BOX_PROBES),
+                       f'unchanged on {len(got)} of {len(_BOX_PROBES)} boxes (edges of the legal range, 0, many digits, integers)',
+                       nontrivial=False)
 
 
 def run(ctx):
